@@ -47,6 +47,27 @@ CHECKS = {
         "With dense output on, t0, tf, dt0 and a query q symbolic: sol(t_i) = y_i; the piece chosen by find_interval and find_interval_vec contains q for every q in the integrated "
         "range, both directions; pieces contiguous in step order with end values = recorded states and end slopes = f at the recorded states (congruent uninterpreted rhs: stale "
         "slopes are caught); continuation in a second call; Richardson pieces cover the step.", "DESIGN.md 3/C06", "O(h^4) interpolation error bound is outside the claim."),
+    "C07": _entry("other",
+        "Assume/guarantee: (A) the REAL handle_events on a symbolic step of either direction with 1-3 affine event functions (symbolic slope and root, directions and terminal flags "
+        "enumerated) and the root finder replaced by the bracket_root stub: every returned event had success, lies in the bracket within sqrt(eps)*|step| of the true root, crosses in a "
+        "requested direction, list sorted along the integration direction and cut after the first terminal event; (B) the REAL event section of integrate with an events oracle "
+        "constrained only by (A): every recorded event was reported, lies inside its step, its state is that step's interpolant at the event time, events are in integration order "
+        "and no crossing is recorded twice.", "DESIGN.md 3/C07-C09", "Root location itself is C14; distance to a root of the exact trajectory is outside."),
+    "C08": _entry("other",
+        "(A) REAL handle_events with an exactly located, strictly interior crossing in a requested direction: the event IS returned for every scale 2^-20..2^20, direction of integration and "
+        "number of events unless an earlier terminal event cuts the list; (B) REAL integrate with the events oracle: every detector report that is not a repeat of the same event "
+        "within eps^0.7 is recorded - true_positive filter, duplicate filter (events never merged) and interpolant pruning with dense_output=False, both directions.",
+        "DESIGN.md 3/C07-C09", "End-to-end completeness additionally needs the root-finder guarantee of C14 (known finding c14.absolute_residual_success)."),
+    "C09": _entry("other",
+        "REAL integrate with the events oracle and mixes of terminal/non-terminal events, both directions, finite and infinite tf: last time = terminal root, nothing beyond, strictly "
+        "monotone rows, last reported event is the terminal one, no detector call afterwards, status terminated-by-event = success, callbacks once per outer step; dense output one "
+        "piece per recorded step, contiguous from t0 to the root with end slopes = f at recorded states; a following integrate() continues monotonically to tf.",
+        "DESIGN.md 3/C07-C09"),
+    "C10": _entry("other",
+        "Hamiltonian uninterpreted: the real ExplicitSymplecticIntegrator.__call__ on dual numbers with a right-hand side of arbitrary separable Hamiltonian structure: whole-step "
+        "M^T J M = J as a polynomial identity and per-stage form (each stage factor symplectic, real update has the drift/kick form) for 1-2 d.o.f.; step(h);step(-h) = identity with "
+        "congruent T'(p), V'(q); kick masks by default, constructor and set_kick_vars; implicit symplectic classes: b_i a_ij + b_j a_ji = b_i b_j, symmetry, R(z)R(-z) = 1, real step "
+        "= R on the rotation block.", "DESIGN.md 3/C10", "Closure of the symplectic group and the Sanz-Serna/Lasagni tableau condition are the trusted mathematical base; energy drift is a consequence, not decided."),
     "C11": _entry("other",
         "For all 16 implicit classes, R = P/Q built at run time from the exact rational values of the float64 tableau entries: z3 proves |R(z)|^2 <= 1+1e-9 and det(I - zA) != 0 for ALL z "
         "with Re z <= 0 (two-variable queries for <= 3 stages; Hermite-Biehler interlacing certificate + axis bound + maximum modulus for every class incl. RadauIIA19); the real "
@@ -67,6 +88,17 @@ CHECKS = {
         "search_bisection/search_bisection_vec that the returned index is the first element >= query (clipped) and that both agree; CubicHermiteInterp is exact (value and gradient) "
         "on the general cubic with symbolic coefficients, interval of either orientation, symbolic evaluation point, scalar and array data.", "DESIGN.md 3/C17",
         "Array lengths <= 6 (quick) / 7 (thorough); vector queries <= 2 / 3."),
+    "C16": _entry("other",
+        "Real JacobianWrapper (adaptive and fixed Richardson depth, flat both ways, base order 2/4/5) on affine maps with symbolic A, f(y), y (shapes scalar, (2,)->(2,), (3,)->(2,), "
+        "(2,2)->(3,)) and polynomial maps of degree <= 4: entry [i...,j...] equals df_i/dy_j up to the rounding noise of the float64 stencil weights, shape (*shape f, *shape y); the "
+        "real DiffRHS.jac under every history of <= 3 (quick) / 4 (thorough) operations over {jac at fresh symbolic (t,y), hook, unhook, rhs.jac=, set_jac_base_order}: attached user "
+        "Jacobians are called once with the requested (t,y) and returned unchanged, otherwise the finite-difference result is for the requested t and state; njev counts answered requests.",
+        "DESIGN.md 3/C16", "Accuracy on non-polynomial functions is outside."),
+    "C18": _entry("other",
+        "The real solve_ivp with symbolic t_span, first_step, max_step, t_eval entries (unsorted, repeated, with/without end points), y0 of shape (2,) and (2,2), args, methods by name "
+        "and class, and in the same path the object API with the same settings: shapes, columns pair with times, first column y0, t_eval times exactly the requested ones along the "
+        "direction of integration with columns equal to the object API's states, args bound positionally at every evaluation, no step above max_step, counters/status those of the system.",
+        "DESIGN.md 3/C18", "Parity with scipy.integrate.solve_ivp is not applicable to this technique (independent compiled numerics)."),
     "C19": _entry("other",
         "On symbolic trajectories (forward, backward, continued, ctrl-adaptive): every integer index in [-len-2, len+2] has sequence semantics, iteration yields each row once in order, "
         "a lookup at an arbitrary real time returns a recorded sample nearest in time (dense: (q, sol(q))), a slice spanning the run returns the run.", "DESIGN.md 3/C19"),
